@@ -70,20 +70,24 @@ func (fr *Frame) callModel(site ssa.Instruction, name string, f *ssa.Function, a
 			}
 			fc.oblige(st, "lock", fr.path, notHeld, fr.pos(site), "Lock: lock not already held by this goroutine (self-deadlock)")
 			st.ghosts["held"] = fc.sc.Define("held", Store(h, p, TTrue))
+			fr.interfere(site, p, st)
 			fr.onLock(site, p, st)
 		case "Unlock":
 			fc.oblige(st, "lock", fr.path, Select(h, p), fr.pos(site), "Unlock: lock is held")
 			fr.onUnlock(site, p, st)
 			st.ghosts["held"] = fc.sc.Define("held", Store(h, p, TFalse))
+			fr.noteReleased(site, p, st)
 		case "RLock":
 			rh := fc.rheldSet(st)
 			fc.oblige(st, "lock", fr.path, Not(Select(h, p)), fr.pos(site), "RLock: write lock not held by this goroutine")
 			st.ghosts["rheld"] = fc.sc.Define("rheld", Store(rh, p, TTrue))
+			fr.interfere(site, p, st)
 			fr.onLock(site, p, st)
 		case "RUnlock":
 			rh := fc.rheldSet(st)
 			fc.oblige(st, "lock", fr.path, Select(rh, p), fr.pos(site), "RUnlock: read lock is held")
 			st.ghosts["rheld"] = fc.sc.Define("rheld", Store(rh, p, TFalse))
+			fr.noteReleased(site, p, st)
 		case "TryLock":
 			ok := fc.sc.Fresh("trylock", SBool)
 			st.ghosts["held"] = fc.sc.Define("held", Ite(ok, Store(h, p, TTrue), h))
